@@ -434,6 +434,13 @@ package collect
 //@ final collect.InMemCollector.Health
 //@ final collect.CollectorWorker.incoming
 //@ final collect.CollectorWorker.fromPeer
+// waitedN(wg): how often a wait group has been waited for; stoppedN(w): how often a worker's Stop ran (call logs)
+//@ ghost waitedN(ref) int
+//@ ghost stoppedN(ref) int
+//@ package sync
+//@ assume sync.(*WaitGroup).Wait
+//@   ghostupdate[waited@C36] waitedN(wg) :: waitedN(wg) == old(waitedN(wg)) + 1
+//@ package collect
 //@ contract collect.(*InMemCollector).Stop props C36
 //@   arith math
 //@   requires i != nil && i.done != nil && i.tracesToSend != nil
@@ -444,10 +451,14 @@ package collect
 //@   ensures[shutdown-announced-and-not-ready] closedN(i.done) == 1 && unregN(i.Health) == old(unregN(i.Health)) + 1
 //@   ensures[every-worker-input-closed-once] forall k int :: 0 <= k && k < len(i.workers) ==> closedN(i.workers[k].incoming) == 1 && closedN(i.workers[k].fromPeer) == 1
 //@   ensures[outgoing-queue-closed-once] closedN(i.tracesToSend) == 1
+// a worker's decision cache is shut down (its add queue closed) only once the worker goroutines have been waited
+// for: a worker still finishing an iteration that records a drop would otherwise send on a closed channel
+//@   ensures[workers-are-awaited] waitedN(&i.workersWG) > old(waitedN(&i.workersWG))
 //@   ensures[no-error] result == nil
 //@   loop 1 invariant closedN(i.done) == 1 && closedN(i.tracesToSend) == 0 && (forall k int :: 0 <= k && k < iter ==> closedN(i.workers[k].incoming) == 1 && closedN(i.workers[k].fromPeer) == 1) && (forall k int :: iter <= k && k < len(i.workers) ==> closedN(i.workers[k].incoming) == 0 && closedN(i.workers[k].fromPeer) == 0)
+//@   loop 2 invariant[caches-are-stopped-only-after-the-workers-have-finished] waitedN(&i.workersWG) > old(waitedN(&i.workersWG))
 //@   loop 2 invariant closedN(i.done) == 1 && closedN(i.tracesToSend) == 0 && (forall k int :: 0 <= k && k < len(i.workers) ==> closedN(i.workers[k].incoming) == 1 && closedN(i.workers[k].fromPeer) == 1)
-//@   modifies all(closedN), unregN(i.Health)
+//@   modifies all(closedN), unregN(i.Health), all(waitedN)
 
 // ---- C12 (reload): the shared registry is emptied BEFORE any worker is told to drop its own samplers. In the
 // other order a worker that handles the signal at once and creates a sampler in between takes a shared dynsampler
